@@ -301,6 +301,7 @@ def run(tier):
         R.broken.append(f"coq evaluation failed (C06_hyps_classes shard {k}): {e[-300:]}")
     R.hist["cases_within_the_theorem_with_classes"] = len(acases) - len(outside2)
     probes.aggregate_probe(R, aspects=("schema",), n_classes=(30 if tier == "quick" else 200))
+    probes.schema_edge_probe(R)
     return R.finish(
         rule="generated universes (dataclass / NamedTuple / TypedDict, aliases, defaults, constraints, dependent_required, "
              "ordering) x types of depth <= 3 (collections, tuples, mappings with constrained / literal / enum keys, unions, "
